@@ -186,6 +186,29 @@ def has_mul_over_div(s):
     return bool(found)
 
 
+def has_sub_left_of_in(spec):
+    found = []
+
+    def f(t):
+        if t[0] == "in" and isinstance(t[1], list) and t[1][0] == "sub":
+            found.append(1)
+    for it in sp.all_items(spec):
+        if it[0] == "t":
+            sp.walk_terms(it[1], f)
+    return bool(found)
+
+
+def _replace_sub_left_of_in(x):
+    """deep copy in which every scalar sub-query left of IN / NOT IN is replaced by the constant it evaluates to"""
+    if isinstance(x, dict):
+        return {k: _replace_sub_left_of_in(v) for k, v in x.items()}
+    if isinstance(x, list):
+        if x and x[0] == "in" and len(x) == 5 and isinstance(x[1], list) and x[1] and x[1][0] == "sub":
+            return ["in", ["vali", sr.SUB_VALUE, None]] + [_replace_sub_left_of_in(v) for v in x[2:]]
+        return [_replace_sub_left_of_in(v) for v in x]
+    return x
+
+
 def _mutate_all(spec, fn):
     """apply fn (in place) to a deep copy of the statement and each nested statement"""
     c = copy.deepcopy(spec)
@@ -222,6 +245,11 @@ def classify(spec, order, j):
         base = _mutate_all(base, repair)
         if passes(base, order, rotate):
             return ["C04", "groupby", "alias-of-select-item", "captured-by-source-column"]
+    # F6: a scalar sub-query as the LEFT operand of IN / NOT IN is rendered without parentheses
+    if has_sub_left_of_in(base):
+        base = _replace_sub_left_of_in(base)
+        if passes(base, order, rotate):
+            return ["C04", "expression", "subquery-left-of-in", "no-parentheses"]
     # F5: ORDER BY column rendered as a bare name that a select alias of another meaning captures
     if any(sp.captured_order_items(q) for q in statements(base)):
         def repair5(q):
